@@ -53,6 +53,7 @@ class WebsocketSession(object):
         # event loop (which closes the socket) while this very thread
         # is inside write() and holds the lock
         self._lock = threading.RLock()
+        self._writing = False
         self._sock = None
         self._poll_start = None
         self._next_ping = None
@@ -85,6 +86,11 @@ class WebsocketSession(object):
     def write(self, data, closing=False):
         """Send raw data."""
         with self._lock:
+            if self._writing:
+                # The lock is reentrant: this is the thread that is in
+                # the middle of a write, entered again from a signal
+                # handler or a finaliser. Frames can't be nested.
+                raise errors.WebSocketUnavailable('write in progress')
             if self._sock is None:
                 log.debug('WebSocket unavailable; data not sent')
                 raise errors.WebSocketUnavailable('not connected')
@@ -97,6 +103,7 @@ class WebsocketSession(object):
             if self._state.closed:
                 log.debug('WebSocket closed; data not sent')
                 raise errors.WebSocketClosed('data not sent')
+            self._writing = True
             try:
                 self._sock.sendall(data)
             except socket.error as error:
@@ -109,6 +116,8 @@ class WebsocketSession(object):
                 raise errors.TransportFail(
                     'socket error; {}', error
                 )
+            finally:
+                self._writing = False
             if closing:
                 # Set while the write lock is held, so no other thread
                 # can write a frame after the close frame.
